@@ -46,6 +46,10 @@ mod x25519_spec;
 #[path = "../../verif/c02.rs"]
 pub(crate) mod verif_c02;
 
+#[cfg(litep2p_verif)]
+#[path = "../../verif/c01.rs"]
+pub(crate) mod verif_c01;
+
 mod handshake_schema {
     include!(concat!(env!("OUT_DIR"), "/noise.rs"));
 }
@@ -116,6 +120,8 @@ impl NoiseContext {
         id_keys: &Keypair,
         role: Role,
     ) -> Result<Self, NegotiationError> {
+        #[cfg(litep2p_verif)]
+        crate::verif::c01_note_static(&keypair.public, &id_keys.public().to_bytes());
         let noise_payload = handshake_schema::NoiseHandshakePayload {
             identity_key: Some(PublicKey::Ed25519(id_keys.public()).to_protobuf_encoding()),
             identity_sig: Some(
